@@ -155,6 +155,10 @@ FORMAT_PROGRAMS = [
     'fun long_function_name_number_one(callback_with_no_arguments: Fun<(), Unit>, another_parameter_name: Int, third: String): Unit { callback_with_no_arguments() }\nlong_function_name_number_one(fun() {}, 1, "a")\n',
     'fun long_function_name_number_two(unit_tuple_argument: (), pair_argument: (Int, String), nested: List<(Int, ())>, another_parameter: Int): Unit { }\n',
     'fun trail() {\n      let bottom = "|     \n  +--"\n  let top = "+--   \n  |"\n  bottom ^ top\n}\n   /// Doc comment.   \nfun documented() {}\n',
+    # a definition that starts on the line where a multi-line string ends; lines joined before a toplevel string
+    'let s = "x\n  y" fun f() {}\nprintln(s)\n',
+    'let x\n = 1\nlet y\n = 2\nfun f() {}\n"a\nb"\n',
+    'let a = "1\n2" struct P { x: Int }\nlet b = "3\n\n4" enum E { A }\nprintln(a ^ b)\n',
 ]
 BOUNDED = [
     {"name": "format_corpus", "kind": "format-corpus", "props": ["C17"], "input": FORMAT_PROGRAMS, "globs": ["src/test_files/**/*.gdn", "src/*.gdn"], "max_files": 600,
